@@ -11,7 +11,8 @@ use serde_json::{json, Value};
 pub const SYSCTL: &str = "/proc/sys/fs/protected_symlinks";
 
 const IDENTITIES: [(&str, u32, bool); 5] = [("root", 0, false), ("root-nocaps", 0, true), ("uid1000", 1000, false), ("uid1001", 1001, false), ("root-then-seteuid1000", 0, false)];
-const DIR_MODES: [u32; 6] = [0o755, 0o777, 0o1755, 0o1777, 0o1775, 0o1757];
+// 1773: sticky and world-writable without o+r (the rule is about S_IWOTH alone; group bits stay open so that plain DAC never interferes)
+const DIR_MODES: [u32; 7] = [0o755, 0o777, 0o1755, 0o1777, 0o1775, 0o1757, 0o1773];
 const OWNERS: [u32; 3] = [0, 1000, 1001];
 
 /// items 0..5 run with the sysctl at 1, items 5..10 with 0 (the parent switches the global value between the two phases)
@@ -92,8 +93,12 @@ pub fn run_item(_tier: &str, idx: usize, only: Option<&Value>) -> MResult<ItemRe
                 ];
                 for (pos, op) in ops {
                     if let Some(o) = only { let want: Op = serde_json::from_value(o["op"].clone()).map_err(|e| Mach(e.to_string()))?; if want != op || o["mode_index"].as_u64() != Some(mi as u64) || o["dir_owner"].as_u64() != Some(downer as u64) || o["link_owner"].as_u64() != Some(lowner as u64) { continue; } }
-                    let ok_ = k.one(op.clone())?;
+                    let mut ok_ = k.one(op.clone())?;
                     let oe = e.one(op.clone())?;
+                    // the kernel backend may answer "safety violation" (EXDEV: openat2 aborted 16 times by renames elsewhere on the machine)
+                    let mut tries = 0;
+                    while !ok_.ok && matches!(ok_.errno, Some(libc::EXDEV) | Some(libc::EAGAIN)) && tries < 30 { tries += 1; ok_ = k.one(op.clone())?; }
+                    if !ok_.ok && matches!(ok_.errno, Some(libc::EXDEV) | Some(libc::EAGAIN)) { res.count("transient_undecided", 1); continue; }
                     res.evaluations += 1;
                     let cls = |o: &Obs| if o.panic.is_some() { "PANIC".to_string() } else if o.ok { "ok".to_string() } else { errname(o.errno.unwrap_or(-1)) };
                     let refused = cls(&ok_) == "EACCES";
